@@ -308,6 +308,22 @@ def oracle_source_properties(rng, c):
             f"C17:source-properties:masked-border={'yes' if nm else 'no'}",
             f"SourceProperties sky_guess/sky_guess_err ({float(sp.sky_guess):.6g}, {float(sp.sky_guess_err):.6g}) differ from statistics of the unmasked border set ({emed:.6g}, {2 * esc / np.sqrt(ecnt):.6g}) (H={H}, W={W}, masked border pixels {nm})",
             dict(kind="oracle-sp", H=H, W=W, n=n, style=c["style"], mask=None if mask is None else np.asarray(mask).astype(int).tolist())))
+    # a border width other than the default, through both public entry points
+    for entry in ("set_sky_guess", "measure_properties"):
+        m = int(rng.integers(1, max(2, min(H, W) // 2 - 1)))
+        if m == 5:
+            m = 3
+        try:
+            getattr(sp, entry)(n_pix_sample=m)
+        except Exception:
+            continue
+        emed, esc, ecnt, keep = expected_stats(image, mask, m)
+        if not close(float(sp.sky_guess), emed) or not close(float(sp.sky_guess_err), 2 * esc / np.sqrt(ecnt)):
+            out.append(Violation(
+                f"C17:source-properties-width:{entry}",
+                f"SourceProperties.{entry}(n_pix_sample={m}): sky_guess/sky_guess_err ({float(sp.sky_guess):.6g}, {float(sp.sky_guess_err):.6g}) are not the statistics "
+                f"of the {m}-pixel unmasked border ({emed:.6g}, {2 * esc / np.sqrt(ecnt):.6g}) (H={H}, W={W})",
+                dict(kind="oracle-sp", H=H, W=W, n=n, style=c["style"], mask=None if mask is None else np.asarray(mask).astype(int).tolist())))
     return out
 
 
